@@ -201,12 +201,15 @@ def gen_cases(rng, tier):
     quick = tier == "quick"
     n_batches, per, n_e2e = (250, 400, 250) if quick else (750, 2000, 5000)
     cases = []
+    # (a few small e2e cases first: the runner copies the first generated cases into the evidence file)
+    for _ in range(3):
+        cases.append(g_e2e_case(rng, 6))
     small = all_small(3 if quick else 4)
     for root in (["/srv/configs", "/"] if quick else ["/srv/configs", "/", "//srv", "rel/configs", "/srv/configs/"]):
         cases.append({"kind": "fn", "root": root, "ids": small, "paths": ["/" + s for s in small] + small, "joins": [], "cps": [], "exhaustive": True})
     for _ in range(n_batches):
         cases.append(g_fn_case(rng, per))
-    for _ in range(n_e2e):
+    for _ in range(n_e2e - 3):
         cases.append(g_e2e_case(rng))
     return cases
 
